@@ -5,6 +5,8 @@ O: at the end of every generation the written image opens; the API view of the r
    object equals the reference model (so untouched files keep their bytes, removed
    entries are gone in all namespaces the documentation says, nothing else changed).
 """
+import io
+
 from hypothesis import strategies as st
 
 from vf import shim, gen
@@ -86,8 +88,63 @@ def oracle(program, blocksize):
             new.close()
         except Exception:
             pass
+    if not failures and len(program['ops']) % 3 == 0 and not run.model.has['udf'] and run.model.hybrid is None:
+        cut_image_stage(run, img, blocksize, failures)
     run.close()
     return run, failures
+
+
+def cut_image_stage(run, img, blocksize, failures):
+    """An image that lost its last sector(s) and that the library still opens is an existing image like any other: what
+    open() shows of it (names, lengths, bytes) is what a generation later has to show again, next to the one file added.
+    No model here: the library's own view of the cut image is the reference."""
+    m = run.model
+    k = 1 + len(run.ops) % 2
+    if len(img) <= (40 + k) * 2048:
+        return
+    cut = open_image(img[:-k * 2048])
+    if isinstance(cut, Exception):
+        run.stats['cut_image_refused'] = run.stats.get('cut_image_refused', 0) + 1
+        return
+    relocs = bool(m.relocated_dirs())
+    kw = dict(physical_iso=not relocs, logical_iso_paths=[p for p in m.t['iso'] if p != '/'] if relocs else None)
+    try:
+        v1 = api_view(cut, m.has, bool(m.rr), blocksize, **kw)
+    except Exception:      # noqa  (what a damaged image cannot show is C15's matter)
+        run.stats['cut_image_unreadable'] = run.stats.get('cut_image_unreadable', 0) + 1
+        cut.close()
+        return
+    try:
+        add = {'iso_path': '/ZZCUT.;1'}
+        if m.rr:
+            add['rr_name'] = 'zzcut'
+        cut.add_fp(io.BytesIO(b'cut' * 100), 300, **add)
+        out = io.BytesIO()
+        cut.write_fp(out)
+        cut.close()
+    except Exception as e:     # noqa
+        failures.append(('C02/cut-image/edit-or-write-raised/' + exc_signature(e), 'cut-image', 'an image cut by %d sector(s) opens, but adding a file and writing raised %s: %s' % (k, type(e).__name__, e)))
+        return
+    new = open_image(out.getvalue())
+    if isinstance(new, Exception):
+        failures.append(('C02/cut-image/reopen/' + exc_signature(new), 'cut-image', 'an image cut by %d sector(s) opens, is edited and written; the result does not open: %s' % (k, new)))
+        return
+    try:
+        v2 = api_view(new, m.has, bool(m.rr), blocksize, **kw)
+    except Exception as e:     # noqa
+        failures.append(('C02/cut-image/view-raised/' + exc_signature(e), 'cut-image', 'reading the generation after the cut image raised %s: %s' % (type(e).__name__, e)))
+        new.close()
+        return
+    new.close()
+    run.stats['cut_images_compared'] = run.stats.get('cut_images_compared', 0) + 1
+    for ns in v1:
+        for path, a in (v1[ns] or {}).items():
+            b = (v2.get(ns) or {}).get(path)
+            if b != a:
+                what = 'lost' if b is None else ('length' if a[1] != b[1] else 'differs')
+                failures.append(('C02/cut-image/%s/%s' % (ns, what), 'cut-image',
+                                 'image cut by %d sector(s): %s path %r was %r when the cut image was opened and is %r one generation (and one added file) later' % (k, ns, path[:60], a, b)))
+                return
 
 
 def nontrivial(run, cl):
